@@ -570,6 +570,15 @@ fn predicates(kinds: &[&'static str], tier: Tier) -> Vec<P> {
             out.push(P::Or(Box::new(x.clone()), Box::new(y.clone())));
         }
     }
+    // NOT over a connective and NOT NOT (seed C10-5: NOT pushed through AND / OR without swapping the connective)
+    let thin2: Vec<P> = thin.iter().step_by(tier.pick(2, 1)).cloned().collect();
+    for x in &thin2 {
+        out.push(P::Not(Box::new(P::Not(Box::new(x.clone())))));
+        for y in &thin2 {
+            out.push(P::Not(Box::new(P::And(Box::new(x.clone()), Box::new(y.clone())))));
+            out.push(P::Not(Box::new(P::Or(Box::new(x.clone()), Box::new(y.clone())))));
+        }
+    }
     // a plain atom combined with a function atom (every 7th / 3rd of them), both orders
     let fthin: Vec<P> = funs.iter().step_by(tier.pick(7, 3)).cloned().collect();
     for x in thin.iter().step_by(tier.pick(3, 1)) {
@@ -850,7 +859,7 @@ pub fn run(ctx: &Ctx) -> Report {
         }
     });
     report.set("work_units_total", n as u64);
-    report.rule = "predicates = atoms (col OP lit in both orders, col OP col, IN lists, col+1 OP lit as an unsupported sub-term, text comparisons, constants), NOT atom, all AND/OR pairs (thorough: depth 3) x struct types of 3 columns from the grids (intervals, unions, value sets, optional, int/float, text) x every row of grid points; joins: 5 kinds x ON predicates x every (left,right) row pair + NULL-padded preserved rows. oracle: predicate true on the row => row in DataType::filter(type) / in the Join's field types (reference membership). non-trivial = (predicate,type) pairs with at least one satisfying row".into();
+    report.rule = "predicates = atoms (col OP lit in both orders, col OP col, IN lists, col+1 OP lit as an unsupported sub-term, text comparisons, constants), NOT atom, NOT NOT atom, all AND/OR pairs, NOT over AND/OR pairs (thorough: depth 3) x struct types of 3 columns from the grids (intervals, unions, value sets, optional, int/float, text) x every row of grid points; joins: 5 kinds x ON predicates x every (left,right) row pair + NULL-padded preserved rows. oracle: predicate true on the row => row in DataType::filter(type) / in the Join's field types (reference membership). non-trivial = (predicate,type) pairs with at least one satisfying row".into();
     report.assumptions = vec![
         "truth of a predicate on a row is the library's Expr::value (an independent three-valued evaluator must not contradict it; disagreements are counted in side_report_evaluator_disagreements)".into(),
     ];
